@@ -6,9 +6,11 @@ patch that still applies to HEAD was part of one tree), runs the checks with VER
 from every one. Patches that no longer apply to HEAD (the repository was repaired since) are listed and skipped."""
 import glob, json, os, subprocess, sys, tempfile
 
-checks = sys.argv[1:] or [c["property_id"] for c in json.load(open("/verif/MANIFEST.json"))["checks"]]
+VERIF = os.path.dirname(os.path.dirname(os.path.abspath(__file__)))  # the tree this tool lives in (a snapshot when started through vp run)
+
+checks = sys.argv[1:] or [c["property_id"] for c in json.load(open(VERIF + "/MANIFEST.json"))["checks"]]
 tier = os.environ.get("TIER", "quick")
-todo = sorted(glob.glob("/verif/neutral/*/patch.diff"))
+todo = sorted(glob.glob(VERIF + "/neutral/*/patch.diff"))
 bad = 0
 round_no = 0
 stale = []
@@ -30,7 +32,7 @@ while todo:
         print(f"tree {round_no}: {len(applied)} patches applied together: " + " ".join(os.path.basename(os.path.dirname(p)) for p in applied))
         env = dict(os.environ, VERIF_REPO=wt, VERIF_EVIDENCE_DIR=os.path.join(wt, ".ev"), VERIF_OUT_DIR=os.path.join(wt, ".out"))
         for c in checks:
-            r = subprocess.run(["/verif/run_check.py", c, "--tier", tier], cwd="/verif", env=env, capture_output=True, text=True, timeout=14400)
+            r = subprocess.run([VERIF + "/run_check.py", c, "--tier", tier], cwd=VERIF, env=env, capture_output=True, text=True, timeout=14400)
             last = r.stdout.strip().splitlines()[-1][:150] if r.stdout.strip() else ""
             print(f"  {c} exit={r.returncode} {last}")
             if r.returncode != 0:
